@@ -474,6 +474,7 @@ class CopyIdentifiersByKind(Contract):
         for kind in KINDS:
             yield {"kind": kind}
         yield {"kind": "drillhole-group"}  # two holes with logs, stored as records of the group
+        yield {"kind": "hole-of-a-drillhole-group"}  # one hole (a log in a property group) copied into a drillhole group of the other workspace
         # any text is a valid name, the empty one included: identifier bookkeeping does not go by names
         for kind in ("points", "curve", "grid2d", "group"):
             for name in ("", " "):
@@ -486,6 +487,8 @@ class CopyIdentifiersByKind(Contract):
 
         def add(e, prefix=""):
             out[prefix + e.name] = e.uid
+            for pg in (getattr(e, "property_groups", None) or []):
+                out[prefix + e.name + "#property-group:" + pg.name] = pg.uid
             for log in (getattr(e, "get_data_list", lambda: [])() if hasattr(e, "concat_attr_str") is False and type(e).__name__.startswith("Concatenated") else []):
                 for c in e.get_data(log):  # logs of a hole in a drillhole group are loaded on request
                     out[prefix + e.name + "/" + c.name] = c.uid
@@ -525,6 +528,14 @@ class CopyIdentifiersByKind(Contract):
                         hole = Drillhole.create(ws, parent=obj, name=f"hole{k}", collar=[10.0 * k, 0.0, 0.0])
                         hole.add_data({f"log{k}": {"depth": np.arange(3.0), "values": np.arange(3.0) + k}})
                         _ = hole.get_data(f"log{k}")
+                elif case["kind"] == "hole-of-a-drillhole-group":
+                    from geoh5py.groups import DrillholeGroup
+                    from geoh5py.objects import Drillhole
+
+                    obj = Drillhole.create(ws, parent=DrillholeGroup.create(ws, name="dh-group"), name="hole", collar=[0.0, 0.0, 0.0])
+                    obj.add_data({"log": {"depth": np.arange(3.0), "values": np.arange(3.0)}}, property_group="logs")
+                    _ = obj.get_data("log")
+                    other = DrillholeGroup.create(other, name="target-group")  # the copies go under a drillhole group of the other workspace
                 else:
                     obj = build(ws, case["kind"])
                 if case.get("name") is not None:
@@ -548,7 +559,7 @@ class CopyIdentifiersByKind(Contract):
                 clash = set(same.values()) & set(mine.values())
                 if clash:
                     return f"copy of a {case['kind']} inside its workspace re-uses identifiers of the originals: {sorted(map(str, clash))[:2]} ({case})"
-                for w in (ws, other):
+                for w in (ws, other.workspace if hasattr(other, "workspace") and not hasattr(other, "objects") else other):
                     seen = {}
                     for e in list(w.objects) + list(w.groups) + list(w.data):
                         if e.uid in seen and seen[e.uid] is not e:
